@@ -20,6 +20,10 @@ COMMON_ASSUMPTIONS = [
 ]
 
 
+def is_view_flavour(f):
+    return f.flavour == "view" or (f.flavour or "").endswith("_view")
+
+
 def confirm(prop, f, cldr):
     """Native confirmation of one finding. Returns (status, replay_path) with status in
     confirmed | not_reproduced | encoder_mismatch | unreplayable."""
@@ -108,8 +112,11 @@ def confirm(prop, f, cldr):
     is_view = f.flavour == "view" or (f.flavour or "").endswith("_view")
     macro = "td_display" if f.flavour == "display" else ("td_view" if is_view else "td_string")
     if is_view:
-        env["comp_tag"] = "span"
+        # leptos renders an empty text node as a blank: use visible values for empty strings in view replays
+        pass
     hostpath = hk.get("path", f.key)
+    if is_view_flavour(f):
+        env["strings"] = {k: (v if v != "" else "\u2205") for k, v in env["strings"].items()}
     req = {"locale": m["locale"], "path": hostpath, "fields": fields, "strings": env["strings"],
            "nums": {k: {"ty": v["ty"], "v": v["v"]} for k, v in nums.items()}, "macro": macro}
     payload["request"] = req
